@@ -72,6 +72,8 @@ METHODS = ["replacement", "single_pass", "dynamic"]
 STRATS = [None, "by_label", "by_group"]
 RATES = gen.METRICS + [gen.ALIASES[m] for m in gen.METRICS]
 NAME_POOLS = {
+    "many-str": ["k%02d" % j for j in range(40)],
+    "many-int": [3 * j - 20 for j in range(40)],
     "str": ["a", "b", "c", "d", "e"],
     "str2": ["g1", "g10", "g2", "g21", "g3"],
     "mixed": ["B", "a", "C", "d", "Ab", "aB"],
@@ -116,8 +118,12 @@ def _script(rng):
 def gen_one(rng, i, tier):
     kind = rng.choice(list(NAME_POOLS))
     G = rng.choice([1, 2, 2, 3, 3, 3, 4, 4])
+    if rng.random() < 0.06:
+        # many groups (a breakdown by country / device): anything that switches strategy with the number of groups
+        kind = rng.choice(["many-str", "many-int"])
+        G = rng.choice([17, 20, 24, 33])
     names = rng.sample(NAME_POOLS[kind], G)
-    large = rng.random() < 0.08
+    large = rng.random() < 0.08 and G <= 4
     members = []  # (class, group index)
     empty_class = rng.choice(["pos", "neg"]) if (not large and rng.random() < 0.04) else None
     for gi in range(G):
@@ -335,6 +341,8 @@ def build(inp) -> Case:
 
     npdt = {"u1": np.uint8, "u2": np.uint16, "i8": np.int64, "i1": np.int8}.get(inp.get("sdt"), float)
 
+    caller = {}
+
     def construct():
         if route == "from_labels":
             pl = inp["pos_label"]
@@ -345,8 +353,12 @@ def build(inp) -> Case:
                 sco_ = np.array(sco_, dtype=npdt)
             return GroupScores.from_labels(labels, sco_, [s[1] for s in inp["samples"]],
                                            pos_label=pl, score_class=sc, equal_class=ec)
-        return GroupScores(np.array([p[0] for p in pos_in], dtype=npdt), np.array([p[0] for p in neg_in], dtype=npdt),
-                           pos_groups=[p[1] for p in pos_in], neg_groups=[p[1] for p in neg_in],
+        caller["pos"] = np.array([p[0] for p in pos_in], dtype=npdt)
+        caller["neg"] = np.array([p[0] for p in neg_in], dtype=npdt)
+        caller["pg"] = np.array([p[1] for p in pos_in]) if pos_in else np.array([])
+        caller["ng"] = np.array([p[1] for p in neg_in]) if neg_in else np.array([])
+        caller["before"] = {k_: np.array(v_, copy=True) for k_, v_ in caller.items() if k_ != "before"}
+        return GroupScores(caller["pos"], caller["neg"], pos_groups=caller["pg"], neg_groups=caller["ng"],
                            score_class=sc, equal_class=ec, group_names=gn, is_sorted=(route == "sorted"))
 
     def fail(clause, detail, sig=None, kind="PROPFAIL"):
@@ -359,6 +371,15 @@ def build(inp) -> Case:
         inp["_evals"] = evals
         return Case(ID, inp, [], lambda outs: [], _tags(inp), 0, pre)
     gs = r0[1]
+    if caller.get("before") and route != "sorted":
+        # the caller's score and label arrays stay paired: the constructor works on copies (another object built from the
+        # same arrays afterwards must see the same data)
+        changed = [k_ for k_, v_ in caller["before"].items() if not np.array_equal(caller[k_], v_)]
+        if changed:
+            fail("attached", f"the constructor changed the caller's arrays {changed} (scores now "
+                 f"{_short(caller['pos'].tolist(), 6)} / {_short(caller['neg'].tolist(), 6)} against labels "
+                 f"{_short(caller['pg'].tolist(), 6)} / {_short(caller['ng'].tolist(), 6)}): their score/label pairing is lost",
+                 "caller-arrays-modified")
     gstate = np.random.get_state()
 
     def observe(obj, label):
